@@ -12,6 +12,6 @@ CfgName == CHOOSE n \in ConfigNames : CfgOf(n) = cfg
 GInit == Init /\ hist = <<>>
 GNext == Next /\ hist' = Append(hist, Enc(req'))
 GSpec == GInit /\ [][GNext]_<<vars, hist>>
-Emit  == PrintT(<<"WIT", CfgName, failCount, authenticated, alive, mode, expect, hist>>)
+Emit  == PrintT(<<"WIT", CfgName, failCount, authenticated, alive, mode, expect, offer, hist>>)
 ASSUME PrintT(<<"MSGS", {Enc(q) : q \in Messages}>>)
 =============================================================================
